@@ -411,6 +411,17 @@ func (f *Func) reachTarget(
 
 		// With the latest shortest paths, let's add the path for this target.
 		paths[i] = currentG.EdgeToPath(current, edgeTo)
+
+		// A named value that was given directly always satisfies itself.
+		// The discounts above are negative weights, with which a chain of
+		// same-named conversions can look cheaper than the direct input.
+		if v, ok := current.(*valueVertex); ok && v.Value.IsValid() {
+			for _, out := range g.OutEdges(current) {
+				if out == root {
+					paths[i] = []graph.Vertex{root, current}
+				}
+			}
+		}
 		log.Trace("path for target", "target", current, "path", paths[i])
 
 		// Get the input
